@@ -21,7 +21,12 @@ import (
 )
 
 func init() {
-	runners["C14"] = runPlugins
+	runners["C14"] = func(c *Ctx) {
+		runPlugins(c)
+		rule := c.Extra["rule"]
+		runRealChains14(c)
+		c.Extra["rule"] = fmt.Sprint(rule) + " || whole chains: server_id (also listed twice) followed by generated chains of the other built-in plugins, DHCPv4 and DHCPv6, fuzzed histories in fresh processes; every reply must carry this server's identifier (option 54 and siaddr / exactly one Server Identifier), and the assembled model is compared"
+	}
 	runners["C17"] = runPlugins
 	runners["C19"] = runPlugins
 }
@@ -287,6 +292,22 @@ func battery4(c *Ctx, name string, args []string) []run4 {
 				out = append(out, x)
 			}
 		}
+		// the response already carries options an earlier plugin of the chain has set (static routes
+		// before the router, a boot file, another DNS list, ...): what this plugin adds must not depend on them
+		ownCodes := map[string][]uint8{"dns": {6}, "mtu": {26}, "netmask": {1}, "router": {3}, "searchdomains": {119}, "staticroute": {121},
+			"lease_time": {51}, "ipv6only": {108}, "autoconfigure": {116}, "nbp": {66, 67}}[name]
+		for _, code := range []uint8{1, 3, 6, 15, 26, 66, 67, 108, 119, 121} {
+			if bytes.IndexByte(ownCodes, code) >= 0 {
+				continue // (the plugin's own option already present is a different question: Update semantics, covered by the model cases)
+			}
+			x := mk(prls[r.Intn(len(prls))], []byte{1, 3}[r.Intn(2)], 1, nil, nil, nil, []net.IP{nil, {10, 0, 0, 5}}[r.Intn(2)], false, []byte{2, 5}[r.Intn(2)])
+			x.resp.Options[code] = [][]byte{{24, 10, 1, 2, 10, 0, 0, 254}, {10, 0, 0, 77}, {0, 0, 7, 8}, []byte("earlier")}[r.Intn(4)]
+			rp, err := dhcpv4.FromBytes(x.resp.ToBytes())
+			if err == nil {
+				x.resp = rp
+				out = append(out, x)
+			}
+		}
 	}
 	return out
 }
@@ -398,10 +419,10 @@ func runPlugins(c *Ctx) {
 	// corpus: the repaired defects first
 	corpus4 := map[string][][]string{"staticroute": {{"2001:db8::/32,10.0.0.1"}, {"10.0.0.0/8,2001:db8::1"}, {"::ffff:10.0.0.0/104,192.168.1.1"}},
 		"ipv6only": {{"30m"}}, "server_id": {{"10.9.9.9"}}}
-	corpus6 := map[string][][]string{"nbp": {{"http://host/p?params=abc"}, {"tftp://10.0.0.1/boot.efi"}}, "server_id": {{"LL", "00:11:22:33:44:55"}, {"duid-llt", "aa-bb-cc-dd-ee-ff"}}}
+	corpus6 := map[string][][]string{"nbp": {{"http://host/p?params=abc"}, {"tftp://10.0.0.1/boot.efi"}, {"http://[2001:db8::1]/boot.php?arch=x64"}, {"http://h/b?params="}}, "server_id": {{"LL", "00:11:22:33:44:55"}, {"duid-llt", "aa-bb-cc-dd-ee-ff"}}}
 	// every value of the small argument pools is used at least once per run
 	base := map[string][]string{
-		"nbp":           {"tftp://10.0.0.1/boot.efi", "http://host/path?params=a+b", "https://h/x", "ftp://h/y", "bootfile", "tftp://[::1]/x", "://bad", "http://host/p?params=abc", "", "tftp://srv", "HTTP://UPPER/x", "file:///local/path"},
+		"nbp":           {"tftp://10.0.0.1/boot.efi", "http://host/path?params=a+b", "https://h/x", "ftp://h/y", "bootfile", "tftp://[::1]/x", "://bad", "http://host/p?params=abc", "", "tftp://srv", "HTTP://UPPER/x", "file:///local/path", "http://10.0.0.1/boot.php?arch=x64", "http://h/b?params=", "http://h/b?x=1&params=p1+p2", "tftp://192.0.2.7/pxelinux.0"},
 		"mtu":           {"1500", "0", "65535", "65536", "-1", "abc", "576"},
 		"netmask":       {"255.255.255.0", "255.255.255.255", "0.0.0.0", "255.0.255.0", "255.255.255.254", "ffff:ff00::", "128.0.0.0", "::ffff:255.255.255.0"},
 		"lease_time":    {"3600s", "0s", "-5s", "1.5s", "abc", "4294967296s", "49710d"},
@@ -467,6 +488,9 @@ func runPluginCase4(c *Ctx, name string, args []string) {
 		return
 	}
 	ok := res.SetupErr == "" && !res.NilHandler
+	if res.LoadAccepted {
+		c.vio("C19", "rejected-config-loaded", fmt.Sprintf("%s %v (DHCPv4): setup returns the error %q, yet plugins.LoadPlugins accepts the configuration and the server would start with it", name, args, res.SetupErr), input)
+	}
 	c.Count("plugin4:" + name)
 	if ok {
 		c.Count("setup4:accepted")
@@ -684,6 +708,9 @@ func runPluginCase6(c *Ctx, name string, args []string) {
 		return
 	}
 	ok := res.SetupErr == "" && !res.NilHandler
+	if res.LoadAccepted {
+		c.vio("C19", "rejected-config-loaded", fmt.Sprintf("%s %v (DHCPv6): setup returns the error %q, yet plugins.LoadPlugins accepts the configuration and the server would start with it", name, args, res.SetupErr), input)
+	}
 	c.Count("plugin6:" + name)
 	if ok {
 		c.Count("setup6:accepted")
